@@ -9,6 +9,9 @@ package conf
 //       real env.Load("MTX", &root) on a value of one of the fixed test types (every kind the loader knows),
 //       built from <seed>; t / v are the reflected type and value in the notation of Model/C09.lean; fl is the
 //       strconv.ParseFloat oracle for the texts occurring in e. answer: ok <value> | err | panic
+//   order name=<hex> base=<hex> env=<hex> want=<hex>
+//       real conf.Load (file, environment, Validate) on <base> with <name>=<env> vs. on <want>: the variable
+//       overrides the file value. answer: eq | diff <what>
 //   leaf name=<hex> path=<seg/seg/..> base=<hex> file=<hex> env=<hex>
 //       real Conf: (A) front half of Load on <file> (= base with the parameter written in YAML), no environment;
 //       (B) front half of Load on <base> with <name>=<env>. answer: eq | botherr | diff <what>
@@ -786,6 +789,54 @@ func verifC09ExecLeaf(a map[string]string) string {
 	return "diff values"
 }
 
+// the real Load (file, then environment, then Validate): the variable must win over the file value
+func verifC09FullLoad(file []byte, kvs []verifC09KV) (c *Conf, res string) {
+	defer func() {
+		if r := recover(); r != nil {
+			c, res = nil, "panic"
+		}
+	}()
+	p := verifC09File(file)
+	verifC09WithEnv(kvs, func() {
+		var err error
+		c, _, err = Load(p, nil, nil)
+		if err != nil {
+			res = "err"
+			return
+		}
+		res = "ok"
+	})
+	return c, res
+}
+
+func verifC09ExecOrder(a map[string]string) string {
+	ca, ra := verifC09FullLoad(verifutil.UnHex(a["base"]), []verifC09KV{{verifutil.UnHexS(a["name"]), verifutil.UnHexS(a["env"])}})
+	cb, rb := verifC09FullLoad(verifutil.UnHex(a["want"]), nil)
+	switch {
+	case ra != "ok" || rb != "ok":
+		return "diff file+env=" + ra + " file=" + rb
+	case reflect.DeepEqual(ca, cb):
+		return "eq"
+	}
+	return "diff values"
+}
+
+// (variable, file with another value, variable text, file with the variable's value): all accepted by Validate
+var verifC09Order = [][4]string{
+	{"MTX_READTIMEOUT", "readTimeout: 5s", "7s", "readTimeout: 7s"},
+	{"MTX_WRITEQUEUESIZE", "writeQueueSize: 1024", "256", "writeQueueSize: 256"},
+	{"MTX_LOGLEVEL", "logLevel: debug", "warn", "logLevel: warn"},
+	{"MTX_API", "api: yes", "no", "api: no"},
+	{"MTX_RTSPADDRESS", "rtspAddress: :8555", ":8556", "rtspAddress: :8556"},
+	{"MTX_HLSSEGMENTCOUNT", "hlsSegmentCount: 3", "9", "hlsSegmentCount: 9"},
+	{"MTX_RTSPTRANSPORTS", "rtspTransports: [tcp]", "udp,tcp", "rtspTransports: [udp, tcp]"},
+	{"MTX_PATHDEFAULTS_MAXREADERS", "pathDefaults:\n  maxReaders: 3", "5", "pathDefaults:\n  maxReaders: 5"},
+	{"MTX_PATHS_CAM1_MAXREADERS", "paths:\n  cam1:\n    maxReaders: 3", "5", "paths:\n  cam1:\n    maxReaders: 5"},
+	{"MTX_PATHS_CAM1_RECORDDELETEAFTER", "paths:\n  cam1:\n    recordDeleteAfter: 2d", "3d", "paths:\n  cam1:\n    recordDeleteAfter: 3d"},
+	{"MTX_AUTHINTERNALUSERS_0_USER", "authInternalUsers:\n- user: alice\n  pass: x", "bob", "authInternalUsers:\n- user: bob\n  pass: x"},
+	{"RTSP_READTIMEOUT", "readTimeout: 5s", "7s", "readTimeout: 7s"},
+}
+
 func verifC09Exec(op string) string {
 	f := strings.Fields(op)
 	a := verifC09Args(f[1:])
@@ -794,11 +845,18 @@ func verifC09Exec(op string) string {
 		return verifC09ExecGen(a)
 	case "leaf":
 		return verifC09ExecLeaf(a)
+	case "order":
+		return verifC09ExecOrder(a)
 	}
 	return "bad-op"
 }
 
 func verifC09Gen(r *verifutil.Rand, i int, thorough bool) []string {
+	if i < len(verifC09Order) {
+		o := verifC09Order[i]
+		return []string{fmt.Sprintf("order name=%s base=%s env=%s want=%s", verifutil.HexS(o[0]), verifutil.HexS(o[1]), verifutil.HexS(o[2]), verifutil.HexS(o[3]))}
+	}
+	i -= len(verifC09Order)
 	leaves := verifC09Leaves()
 	// exhaustive over the parameters of the real configuration: every leaf, two encodings, with and without a file value
 	if i < len(leaves)*4 {
